@@ -98,6 +98,9 @@ func (w *Walker) loopOne(s ast.Stmt, rng *ast.RangeStmt, fr *ast.ForStmt, body *
 	loopID := fmt.Sprintf("L%d", w.A.Prog.Fset.Position(s.Pos()).Line)
 	// 1. pre-pass: discover what the body may kill
 	pre := st.clone()
+	// the probe starts with a clean kill record: what matters is what the BODY writes, whether or not the location was
+	// already written earlier in the function (facts re-established since then must not survive the loop)
+	pre.Killed = map[string]int{}
 	probe := &Walker{A: w.A, Fn: w.Fn, info: w.info, record: false, depth: w.depth, inl: w.inl, budget: w.budget, defers: nil}
 	probe.loops = append(probe.loops, &loopCtx{})
 	savedInl := w.inl
@@ -112,7 +115,7 @@ func (w *Walker) loopOne(s ast.Stmt, rng *ast.RangeStmt, fr *ast.ForStmt, body *
 	collect := func(ss []*State) {
 		for _, p := range ss {
 			for l, k := range p.Killed {
-				if k&^st.Killed[l] != 0 {
+				if k != 0 {
 					preKilled[l] |= k
 				}
 			}
@@ -707,8 +710,8 @@ func (w *Walker) callInternal(call *ast.CallExpr, fn *FuncInfo, st *State, nres 
 			for _, k := range kl {
 				loc := k.loc
 				if strings.HasPrefix(loc, "recv.") || loc == "recv" {
-					if recvs[i] == rootRecv {
-						// same receiver object: locations coincide
+					if recvs[i] == rootRecv || fn.RecvVar == nil && hasTerm(args[i], rootRecv) {
+						// same receiver object (as receiver, or handed to a plain function): locations coincide
 					} else if recvLoc == "" {
 						continue
 					} else {
@@ -1016,6 +1019,15 @@ func (w *Walker) inlineCall(fn *FuncInfo, recv *Term, args []*Term, st *State, n
 func errorOnly(fn *FuncInfo) bool {
 	sig := fn.Obj.Type().(*types.Signature)
 	return sig.Results().Len() == 1 && sig.Results().At(0).Type().String() == "error"
+}
+
+func hasTerm(ts []*Term, t *Term) bool {
+	for _, x := range ts {
+		if x == t {
+			return true
+		}
+	}
+	return false
 }
 
 func stmtCount(n ast.Node) int {
